@@ -136,7 +136,7 @@ def wildcard_case(draw):
     first = draw(gen.plain_selects(other, limit=False, order=False, distinct=False))
     first['limit'] = None
     return {'tables': [table, other], 'kind': kind, 'inner': inner, 'first': harness.force_aliases(first),
-            'distinct': draw(st.booleans())}
+            'distinct': draw(st.booleans()), 'nest': draw(st.integers(0, 1))}
 
 
 def prop_wildcard(sh, case):
@@ -170,7 +170,16 @@ def prop_wildcard(sh, case):
         q = f'SELECT * FROM ({itext})'
         if kind == 'subq2':
             q = f'SELECT * FROM ({q})'
-    r = harness.engine(conn, q)
+    if kind in ('table', 'default'):
+        # one parsed statement serves every table of that name: it is first executed over a table with other
+        # columns on another connection (and, the parse being memoised per process, over the tables of earlier cases)
+        stmt = harness.parsed(q if case.get('nest', 0) % 2 == 0 else f'SELECT * FROM ({q})')
+        other = {'name': table['name'], 'cols': [('zz', 'int')] + [(n + '_', t) for n, t in table['cols'][:2]],
+                 'rows': [tuple([1] + [None] * len(table['cols'][:2]))]}
+        harness.engine(harness.connect([other], default)[0], stmt)
+        r = harness.engine(conn, stmt)
+    else:
+        r = harness.engine(conn, q)
     if r[0] != 'ok':
         return [(exc_sig(r[1], 'wildcard:raises'), f'{q!r}: {r[1]!r}')]
     names = [d.name for d in r[1]]
